@@ -1,4 +1,94 @@
+/-
+  C19 — Every accepted definition yields Rust that type-checks.
+
+  There is no formal model of Rust's type system here, so this property is decided in two layers:
+  the theorems below prove *necessary* well-formedness conditions of the emitted items over the
+  model of the generator (referenced items exist, names agree between the referencing and the
+  defining site, discriminants are distinct, called getters exist), and rustc itself is the oracle
+  for sufficiency: every accepted definition the harness generates is compiled (`cargo check`,
+  `#![no_std]`, against /repo/device-driver).
+-/
 import DDV.Gen.Emit
+import DDV.Gen.Lemmas.Enum
+import DDV.Props.C15
+
 namespace DDV.Props.C19
-theorem placeholder : True := trivial
+open DDV.Gen
+set_option linter.unusedVariables false
+set_option linter.unusedSimpArgs false
+
+/-- A register accessor refers to the field-set type named like the register, with the address
+    type of the global config, the register's access marker and the `new` constructor. -/
+theorem register_accessor_refers_to_its_field_set (n : Names) (cfg : GlobalConfig) (all : List Object)
+    (r : Register) (t : Integer) (hc : cfg.registerAddressType = some t) (fuel : Nat) :
+    ∃ m, getMethod n cfg all "new" (fuel + 1) (.register r) = .ok (m, []) ∧
+      m.target = some r.name ∧ m.addressType = some t ∧ m.access = some r.access ∧ m.resetFn = some "new" := by
+  unfold getMethod
+  simp [hc, bind, Except.bind, pure, Except.pure]
+
+/-- The field set that accessor refers to is emitted under exactly that name (`transform_field_set`
+    is called with `format_ident!("{}", r.name)`), with the register's size. -/
+theorem register_field_set_is_emitted (enums : List Enum) (r : Register) (bo : DDV.Bits.ByteOrder)
+    (reset : Option (List Nat)) (refs : List (String × List Nat)) (fs : LFieldSet)
+    (h : transformFieldSet enums r.fields r.name r.cfg bo r.bitOrder r.sizeBits reset refs = .ok fs) :
+    fs.name = r.name ∧ fs.sizeBits = r.sizeBits ∧ fs.refResets = refs ∧ fs.cfg = r.cfg := by
+  unfold transformFieldSet at h
+  simp only [bind, Except.bind, pure, Except.pure] at h
+  cases hm : r.fields.mapM (transformField enums) with
+  | error e => rw [hm] at h; cases h
+  | ok x => rw [hm] at h; simp only [Except.ok.injEq] at h; rw [← h]; exact ⟨rfl, rfl, rfl, rfl⟩
+
+/-- A command uses the unit type exactly for an absent field list, and otherwise the names
+    `<Command>FieldsIn` / `<Command>FieldsOut` under which its two field sets are emitted. -/
+theorem command_accessor_sets (n : Names) (cfg : GlobalConfig) (all : List Object) (c : Command)
+    (t : Integer) (hc : cfg.commandAddressType = some t) (fuel : Nat) :
+    ∃ m, getMethod n cfg all "new" (fuel + 1) (.command c) = .ok (m, []) ∧
+      (m.inSet = if c.inFields.isEmpty then none else some s!"{c.name}FieldsIn") ∧
+      (m.outSet = if c.outFields.isEmpty then none else some s!"{c.name}FieldsOut") := by
+  unfold getMethod
+  simp [hc, bind, Except.bind, pure, Except.pure]
+
+/-- Discriminants of an accepted cfg-free enum are pairwise distinct (so `#[repr(..)] enum` has no
+    duplicate discriminant error): from the analysis' distinctness condition (C15). -/
+theorem discriminants_distinct (e : Enum) (hcfg : ∀ v ∈ e.variants, v.cfg = none)
+    (hd : ((specNumbers e.variants none).zip (e.variants.map (·.cfg))).Nodup) :
+    (specNumbers e.variants none).Nodup := by
+  have hlen : ∀ (vs : List EnumVariant) (last : Option Int), (specNumbers vs last).length = vs.length := by
+    intro vs
+    induction vs with
+    | nil => intro last; rfl
+    | cons v vs ih => intro last; simp [specNumbers, ih]
+  have hmap : (e.variants.map (·.cfg)) = List.replicate e.variants.length none := by
+    apply List.eq_replicate_iff.2
+    exact ⟨by simp, fun c hc => by obtain ⟨v, hv, rfl⟩ := List.mem_map.1 hc; exact hcfg v hv⟩
+  rw [hmap] at hd
+  generalize hl : specNumbers e.variants none = ns at hd
+  have hlen' : ns.length = e.variants.length := by rw [← hl]; exact hlen _ _
+  clear hl hmap
+  generalize e.variants.length = k at hd hlen'
+  induction ns generalizing k with
+  | nil => exact List.nodup_nil
+  | cons a as ih =>
+    cases k with
+    | zero => simp at hlen'
+    | succ k =>
+      simp only [List.replicate_succ, List.zip_cons_cons, List.nodup_cons] at hd ⊢
+      refine ⟨?_, ih k hd.2 (by simpa using hlen')⟩
+      intro hmem
+      apply hd.1
+      have : as.length = k := by simpa using hlen'
+      rw [List.mem_iff_getElem] at hmem ⊢
+      obtain ⟨i, hi, hget⟩ := hmem
+      exact ⟨i, by simp [this] at hi ⊢; omega, by simp [hget]⟩
+
+/-- The `Debug` impl calls the getter of every field; a field set all of whose fields are readable
+    therefore only calls getters that exist. (The full statement — for every field set — is false
+    of the current tree: finding F11, write-only fields.) -/
+theorem debug_calls_existing_getters (bo : DDV.Bits.ByteOrder) (bito : DDV.Bits.BitOrder) (fs : LFieldSet)
+    (hr : ∀ f ∈ fs.fields, f.access.readable = true) :
+    ∀ f ∈ fs.fields, getterJson bo bito f ≠ Lean.Json.null := by
+  intro f hf
+  unfold getterJson
+  simp [hr f hf, Lean.Json.mkObj]
+
 end DDV.Props.C19
